@@ -655,6 +655,43 @@ func ZZ_SVC_Scenarios() {
 		zz.Assert(zz.FSBadUse() == 0, "view.held.no-read-of-a-closed-file")
 		held.Release()
 		zzInService(mgr, func() {})
+	case 12: // a view taken while the served list has spare capacity; a later import lands in the spare slot,
+		// then a merge of the newer files only (offset 1) rewrites the list in place
+		imp("b.pcap")
+		zzSettle(mgr)
+		zzInService(mgr, func() { // spare capacity, as append leaves it behind sooner or later
+			mgr.indexes = append(make([]*index.Reader, 0, 8), mgr.indexes...)
+			mgr.mergeJobRunning = true // no merge starts by itself
+		})
+		held := mgr.GetView()
+		seen := map[uint64]uint64{}
+		held.AllStreams(context.Background(), func(sc StreamContext) error { seen[sc.Stream().ID()] = sc.Stream().ClientBytes; return nil })
+		imp("c.pcap") // extends stream 0, adds a stream
+		zzWaitImports(mgr)
+		var idxs []*index.Reader
+		var rel indexReleaser
+		enough := false
+		zzInService(mgr, func() {
+			if enough = len(mgr.indexes) >= 3; enough {
+				idxs, rel = mgr.getIndexesCopy(1)
+			}
+		})
+		zz.Assert(enough, "scenario.three-index-files")
+		if !enough {
+			return
+		}
+		mgr.mergeIndexesJob(1, idxs, rel)
+		zzSettle(mgr)
+		again := map[uint64]uint64{}
+		err := held.AllStreams(context.Background(), func(sc StreamContext) error { again[sc.Stream().ID()] = sc.Stream().ClientBytes; return nil })
+		zz.Assert(err == nil, "view.held.noerr")
+		zz.Assert(len(again) == len(seen), "view.held.same-streams-for-its-whole-lifetime")
+		for id, cb := range seen {
+			zz.Assert(again[id] == cb, "view.held.same-version-for-its-whole-lifetime")
+		}
+		zz.Assert(zz.FSBadUse() == 0, "view.held.no-read-of-a-closed-file")
+		held.Release()
+		zzInService(mgr, func() {})
 	case 5: // a capture arrives out of chronological order: the stream is reset
 		imp("early.pcap")
 		zzSettle(mgr)
